@@ -1,5 +1,6 @@
 import StunVerif.Props.C18
 import StunVerif.Props.C18Codec
+import StunVerif.Props.SrcFnAgent
 #print axioms StunVerif.C18.send_tx
 #print axioms StunVerif.C18.poll_tx
 #print axioms StunVerif.C18.remembered_fixed
@@ -12,3 +13,14 @@ import StunVerif.Props.C18Codec
 #print axioms StunVerif.C18.send_request_dup
 #print axioms StunVerif.C18.send_other_once
 #print axioms StunVerif.C18.transmitted_tid
+#print axioms StunVerif.SrcFnAgent.src_reqPoll
+#print axioms StunVerif.SrcFnAgent.src_validatedPeer
+#print axioms StunVerif.SrcFnAgent.src_takeOutstanding
+#print axioms StunVerif.SrcFnAgent.remove_of_lookup_none
+#print axioms StunVerif.SrcFnAgent.src_handleStun
+#print axioms StunVerif.SrcFnAgent.src_send_request
+#print axioms StunVerif.SrcFnAgent.src_send_other
+#print axioms StunVerif.SrcFnAgent.src_cancel
+#print axioms StunVerif.SrcFnAgent.src_cancelRetransmissions
+#print axioms StunVerif.SrcFnAgent.foldl_add_eq_sum
+#print axioms StunVerif.SrcFnAgent.src_configureTimeout
